@@ -51,6 +51,7 @@ def iffmOp (a : Args) : String :=
       match a.str "op" with
       | "save" => showResult (saveEntry d B L (a.nat "vmaj" 4) (a.bytes "frames") (padOfZ a) e s)
       | "delete" => showResult (deleteEntry d B L e s)
+      | "deletem" => showResult (deleteWaveMethodEntry d B L e s)
       | _ => "bad-op"
 
 /-- `iffload fmt=… data=… [fail=i:err] [short=i:k]`: the tag class constructor up to the ID3 header (Model/Container/IffLoadM.lean)
